@@ -50,6 +50,7 @@ pub enum Action {
     NewChan(u64, u64, i64),
     Idle(u64),
     CancelIdle(u64),
+    StopSignal,
 }
 
 #[derive(Clone, Debug)]
@@ -126,6 +127,7 @@ pub fn parse_action(ws: &[&str]) -> Option<Action> {
         ["newchan", c, fd, b] => Action::NewChan(n(c)?, n(fd)?, z(b)?),
         ["idle", i] => Action::Idle(n(i)?),
         ["cancelidle", i] => Action::CancelIdle(n(i)?),
+        ["stopsignal"] => Action::StopSignal,
         _ => return None,
     })
 }
@@ -387,6 +389,7 @@ struct World {
     base: Instant,
     logging: Cell<bool>,
     batch_seen: Cell<bool>,
+    signal: RefCell<Option<calloop::LoopSignal>>,
 }
 
 struct DropGuard {
@@ -807,6 +810,11 @@ fn exec_action(w: &Rc<World>, a: &Action) {
             });
             w.inner.borrow_mut().idles.insert(i, idle);
         }
+        Action::StopSignal => {
+            if let Some(sig) = w.signal.borrow().as_ref() {
+                sig.stop();
+            }
+        }
         Action::CancelIdle(i) => {
             let idle = w.inner.borrow_mut().idles.remove(i);
             if let Some(idle) = idle {
@@ -881,6 +889,7 @@ pub fn run_scenario(scen: Scenario) -> Vec<String> {
         base: Instant::now(),
         logging: Cell::new(true),
         batch_seen: Cell::new(false),
+        signal: RefCell::new(Some(event_loop.get_signal())),
     });
     {
         let wk = Rc::downgrade(&w);
